@@ -381,18 +381,20 @@ def translate_expression(expr, env: Env) -> TExp:  # noqa: C901
             if len(args) != len(def_f[1]):
                 raise TypeErrorException(args, def_f[1])
 
+            def flat_bits(v):
+                if isinstance(v, List):
+                    return [b for el in v for b in flat_bits(el)]
+                return [v]
+
+            # substitute the bits of every actual argument for the bits of the formal, by position
             subs = {}
             for a, fa in zip(args, def_f[1]):
-                if isinstance(a[1], List):
-                    for i in range(len(a[1])):  # type: ignore
-                        index = ".".join(a[1][i].name.split(".")[1:])  # type: ignore
-                        if index == "":
-                            index = f"{i}"
+                a_bits = flat_bits(a[1])
+                if len(a_bits) != len(fa.bitvec):
+                    raise TypeErrorException(a[0], fa.ttype)
 
-                        subs[f"{fa.name}.{index}"] = a[1][i]  # type: ignore
-
-                else:
-                    subs[fa.name] = a[1]
+                for fb, ab in zip(fa.bitvec, a_bits):
+                    subs[fb] = ab
 
             n_exps = []
             for s, e in def_f[3]:
